@@ -143,6 +143,19 @@ def impl(case):
         traj.apply_drift_correction(), traj.center_of_mass(), traj.filter('Li'), traj.mean_squared_displacement(), traj[1:], traj[::2]
         if nfr >= 3:
             traj.split(2)
+        # analyses that read the trajectory as a whole: density volume, shape analysis of a folded supercell, site transitions
+        try:
+            from gemdat.shape import ShapeAnalyzer
+            from pymatgen.core import PeriodicSite
+            from pymatgen.symmetry.groups import SpaceGroup
+            import warnings
+            with warnings.catch_warnings():
+                warnings.simplefilter('ignore')
+                ShapeAnalyzer(sites=[PeriodicSite('Li', [0.1, 0.2, 0.3], traj.get_lattice())], lattice=traj.get_lattice(),
+                              spacegroup=SpaceGroup('P-1')).analyze_trajectory(traj, supercell=(2, 1, 1), radius=1.0)
+            traj.to_volume(resolution=1.0)
+        except (ValueError, AssertionError, IndexError, TypeError):
+            pass
         pos3, disp3, cum3, dist3, _ = _obs(traj)
         same3 = bool(np.array_equal(pos, pos3) and np.array_equal(disp, disp3) and np.array_equal(cum, cum3) and np.allclose(dist, dist3, rtol=1e-12, atol=1e-12))
         # a slice that starts after frame 0, asked for displacements and then for positions: its frames are the parent's frames
